@@ -1,6 +1,6 @@
 SPECIFICATION Spec
 CONSTANTS
-  Series = {1, 2}
+  Series = {1}
   WNeg = 2
   WPos = 3
   Vals = {"1"}
